@@ -140,19 +140,22 @@ Fixpoint unblock_front (fuel : nat) (e : exec) (s : sem) : option (exec * sem) :
   end.
 
 (* reblock_if_unfair *)
+Definition reblock_step (s : sem) (acc : option exec) (wid : nat) : option exec :=
+  match acc with
+  | None => None
+  | Some e =>
+    match get_waiter s wid with
+    | None => None
+    | Some w =>
+      (* waiters of the running task are skipped: it is not suspended on them (it has just acquired permits
+         through another request) *)
+      if N.ltb (sm_avail s) (wt_n w) && negb (match me e with Some m => Nat.eqb m (wt_task w) | None => false end)
+         && (match task_finished e (wt_task w) with Some false => true | _ => false end)
+      then e_block e (wt_task w) false else Some e
+    end
+  end.
 Definition reblock_if_unfair (e : exec) (s : sem) : option exec :=
-  if sm_fair s then Some e else
-  fold_left (fun acc wid =>
-     match acc with
-     | None => None
-     | Some e =>
-       match get_waiter s wid with
-       | None => None
-       | Some w =>
-         if N.ltb (sm_avail s) (wt_n w) && (match task_finished e (wt_task w) with Some false => true | _ => false end)
-         then e_block e (wt_task w) false else Some e
-       end
-     end) (sm_queue s) (Some e).
+  if sm_fair s then Some e else fold_left (reblock_step s) (sm_queue s) (Some e).
 
 (* enqueue_waiter *)
 Definition enqueue_waiter (s : sem) (wid : nat) : option sem :=
